@@ -147,6 +147,15 @@ def make_frame(g):
     import setigen as stg
     fr = stg.Frame(fchans=g['fchans'], tchans=g['tchans'], df=g['df'], dt=g['dt'], fch1=g['fch1'],
                    ascending=g['asc'], t_start=0.0)
+    if g.get('ts0') or g.get('tsgap'):
+        # history: before its time axis is replaced (what Cadence.add_signal does around every injection) the frame has
+        # already served one Doppler-smeared injection of a drifting signal on its constructor axis
+        try:
+            fr.add_signal(stg.constant_path(f_start=float(fr.fs[len(fr.fs) // 2]), drift_rate=0.7 * fr.df / fr.dt), 1.0,
+                          _ones_profile, doppler_smearing=True)
+        except Exception:
+            pass
+        fr.data[:] = 0.0
     if g.get('ts0'):
         fr.ts = fr.ts + g['ts0']
     if g.get('tsgap'):
